@@ -23,7 +23,7 @@ func newRand(seed uint64, stream uint64) *rand.Rand { return rand.New(rand.NewPC
 type GenCfg struct {
 	MaxDepth    int
 	Letters     []int // literal alphabet of the pattern
-	Nullable    bool  // allow nullable operands of quantifiers (outside the C01 fragment)
+	Nullable    bool  // allow nullable operands of quantifiers (inside the exact oracle: RegexSem has the empty-iteration rule)
 	NestedRep   bool  // allow a quantifier directly on a quantified item (outside the C01 fragment)
 	Lookbehind  bool
 	Lookahead   bool
@@ -49,7 +49,7 @@ var baseLetters = []int{'a', 'b', 'c'}
 func cfgC01() GenCfg {
 	return GenCfg{MaxDepth: 4, Letters: []int{'a', 'b', 'c', 'A', 'B', 0xe9, 0xc9, '_', ' ', '\n', '-', 0x1F600, 0x301},
 		Lookbehind: true, Lookahead: true, Refs: true, Conds: true, Anchors: true, Atomic: true,
-		InlineOpts: "ims", Named: true, Shorthands: true, Subtraction: true, Dot: true, G: false, MaxGroups: 5, MaxRepBound: 3, MaxNodes: 12}
+		InlineOpts: "ims", Named: true, Shorthands: true, Subtraction: true, Nullable: true, Dot: true, G: false, MaxGroups: 5, MaxRepBound: 3, MaxNodes: 12}
 }
 
 type Gen struct {
